@@ -151,7 +151,25 @@ def detect_flags(repo) -> dict:
         read_empty = True
     else:
         raise RuntimeError("fetch_values: unrecognised test around values[0]")
-    return {"guard_cells": guard, "skip_valueless": skip, "read_empty": read_empty}
+    # (4) Data.copy: blank array built with np.full_like (works for str arrays) or with np.ones_like(...) * nan_value?
+    tree = ast.parse((repo / "geoh5py/data/data.py").read_text())
+    fn = None
+    for node in ast.walk(tree):
+        if isinstance(node, ast.ClassDef) and node.name == "Data":
+            for sub in node.body:
+                if isinstance(sub, ast.FunctionDef) and sub.name == "copy":
+                    fn = sub
+    if fn is None:
+        raise RuntimeError("Data.copy not found")
+    calls = {x.func.attr for x in ast.walk(fn) if isinstance(x, ast.Call) and isinstance(x.func, ast.Attribute)
+             and isinstance(x.func.value, ast.Name) and x.func.value.id == "np"}
+    if "full_like" in calls and "ones_like" not in calls:
+        copy_text = True
+    elif "ones_like" in calls and "full_like" not in calls:
+        copy_text = False
+    else:
+        raise RuntimeError("Data.copy: unrecognised construction of the blank array")
+    return {"guard_cells": guard, "skip_valueless": skip, "read_empty": read_empty, "copy_text": copy_text}
 
 
 def regenerate(repo):
@@ -164,8 +182,8 @@ def _flags_term():
     global _FLAGS
     if _FLAGS is None:
         _FLAGS = detect_flags(C.REPO)
-    return "{| f_guard_cells := %s; f_skip_valueless := %s; f_read_empty := %s |}" % (
-        cbool(_FLAGS["guard_cells"]), cbool(_FLAGS["skip_valueless"]), cbool(_FLAGS["read_empty"]))
+    return "{| f_guard_cells := %s; f_skip_valueless := %s; f_read_empty := %s; f_copy_text := %s |}" % (
+        cbool(_FLAGS["guard_cells"]), cbool(_FLAGS["skip_valueless"]), cbool(_FLAGS["read_empty"]), cbool(_FLAGS["copy_text"]))
 
 
 # ----------------------------------------------------------------------------- specification ledger (oracle + generator)
@@ -287,17 +305,17 @@ def _gen_add(rng, E, kid_id, allow_bad=False):
     assoc = rng.weighted([("VERTEX", 55), ("CELL", 35 if cls != "Points" else 0), ("OBJECT", 10)])
     kind = rng.weighted([("float", 40), ("int", 15), ("bool", 10), ("ref", 10), ("text", 25)])
     n = _count(E, assoc)
-    if kind == "text" and (assoc == "OBJECT" or n < 2):
-        kind = "float"  # per-element text needs at least two elements (a one-entry text array reads back as a scalar)
+    if kind == "text" and (assoc == "OBJECT" or n < 1):
+        kind = "float"  # per-element text only; an empty text array cannot even be created
     style = rng.weighted([("full", 68), ("short", 14), ("none", 9), ("long", 9 if allow_bad else 0)])
     if assoc == "OBJECT":
         style = "full"
-    if kind == "text" and style == "short":
-        style = "full"  # text data are stored unpadded; short text arrays are outside the generated scope (see notes)
+    if kind == "text" and style == "short" and n < 2:
+        style = "full"  # a short text array keeps at least one entry
     if style == "none":
         vals = None
     else:
-        ln = {"full": n, "short": rng.range(0, max(0, n - 1)), "long": n + rng.range(1, 3)}[style]
+        ln = {"full": n, "short": rng.range(1 if kind == "text" else 0, max(0, n - 1)), "long": n + rng.range(1, 3)}[style]
         vals = _gen_vals(rng, kind, ln)
     return {"op": "add", "id": kid_id, "assoc": assoc, "kind": kind, "vals": vals}
 
@@ -374,8 +392,8 @@ def _gen_case(rng):
             ln = rng.weighted([(n, 55), (rng.range(0, max(0, n - 1)), 25), (n + rng.range(1, 2), 20)])
             if kid["assoc"] == "OBJECT":
                 ln = 1
-            if kid["kind"] == "text" and ln < n:
-                ln = n
+            if kid["kind"] == "text" and ln < 1:
+                ln = max(n, 1)  # never assign an empty text array (it cannot be written; with n = 0 this one is refused)
             op = {"op": "set", "id": kid["id"], "vals": _gen_vals(rng, kid["kind"], ln)}
         elif k == "add":
             op = _gen_add(rng, E, next_id)
@@ -405,16 +423,6 @@ def _gen_case(rng):
         else:
             op = {"op": "reopen"}
         E2, want = spec_apply(E, op)
-        if want == "ok" and op["op"] in ("rv", "rc", "copy"):
-            for kid in E["kids"]:
-                if kid["kind"] == "text" and kid["vals"] is not None:
-                    new = next(k2 for k2 in E2["kids"] if k2["id"] == kid["id"])["vals"]
-                    # per-element text data: keep at least two entries (one entry reads back as a scalar, zero cannot be
-                    # written) and never copy without dropping something (Data.copy multiplies a str array): see notes
-                    if len(new) < 2 or (op["op"] == "copy" and len(new) == len(kid["vals"])):
-                        op = {"op": "reopen"}
-                        E2, want = spec_apply(E, op)
-                        break
         case["ops"].append(op)
         E = E2
     return case
@@ -475,7 +483,10 @@ def _snap(obj):
             continue
         try:
             val = ch.values
-            val = None if val is None else _canon_vals(val)
+            if isinstance(val, (str, bytes)):
+                val = {"scalar": _canon_vals(val)[0]}   # a scalar string where an array is expected
+            else:
+                val = None if val is None else _canon_vals(val)
         except Exception as e:  # noqa: BLE001 - a read failure is an observation
             val = {"error": type(e).__name__}
         kids.append({"name": ch.name, "assoc": ch.association.name, "vals": val})
@@ -589,8 +600,8 @@ def drive_one(case, work):
                     stop = "dirty"
                 if any(kd["vals"] == [] for kd in snap["kids"]):
                     stop = stop or "empty"
-                if any(kinds.get(G_id(kd["name"])) == "text" and isinstance(kd["vals"], list) and len(kd["vals"]) < 2 for kd in snap["kids"]):
-                    stop = stop or "text-short"
+            if any(isinstance(kd["vals"], dict) and "scalar" in kd["vals"] for kd in snap["kids"]):
+                stop = stop or "text-scalar"   # a one-entry text array came back as a scalar: nothing after it is modelled
             prev = snap
         return {"init": init, "steps": steps, "executed": executed, "stopped": stop}
     finally:
@@ -635,7 +646,11 @@ def _snap_term(snap):
         if kid is None:
             return None
         v = kd["vals"]
-        if isinstance(v, dict):
+        if isinstance(v, dict) and "scalar" in v:
+            if isinstance(v["scalar"], dict):
+                return None
+            rv = "RS %s" % copt(v["scalar"], cz)
+        elif isinstance(v, dict):
             if v["error"] not in ERRS:
                 return None
             rv = "RE %s" % v["error"]
@@ -781,6 +796,11 @@ def oracle(case, obs):
         E2, want = spec_apply(E, op)
         k = op["op"]
         if k == "reopen":
+            sc = [kd for kd in snap["kids"] if isinstance(kd["vals"], dict) and "scalar" in kd["vals"]]
+            if sc:
+                fails.append({"key": "text-single-entry-read-as-scalar",
+                              "what": f"step {n}: after re-open the one-entry text array {sc[0]['name']} is read as a scalar string, not as an array with one entry per element"})
+                return fails
             bad = [kd for kd in snap["kids"] if isinstance(kd["vals"], dict)]
             if bad:
                 exp = {kd["id"]: kd for kd in E["kids"]}
@@ -814,6 +834,13 @@ def oracle(case, obs):
                     return fails
                 return fails  # ledger cannot follow an unspecified success
             msg = _expected_snapshot_mismatch(E2, snap, False)
+            if msg and k in ("set", "add") and op.get("vals") is not None:
+                kind = op.get("kind") or next((kd["kind"] for kd in E["kids"] if kd["id"] == op["id"]), None)
+                got = next((kd["vals"] for kd in snap["kids"] if kd["name"] == f"d{op['id']}"), None)
+                if kind == "text" and got == list(op["vals"]) and len(got) < len(next(kd["vals"] for kd in E2["kids"] if kd["id"] == op["id"])):
+                    fails.append({"key": "text-short-not-padded",
+                                  "what": f"step {n}: {op}: a text array shorter than the element count is stored unpadded ({len(got)} entries)"})
+                    return fails
             if msg:
                 key = {"rv": "remove-vertices-wrong-result", "rc": "remove-cells-wrong-result", "set": "values-not-padded",
                        "add": "values-not-padded", "copy": "masked-copy-wrong-result"}[k]
@@ -821,7 +848,20 @@ def oracle(case, obs):
                 return fails
             E, prev = E2, snap
             continue
-        # the operation failed: whatever is left must be mutually consistent, surviving elements keep coordinates and values
+        # the operation failed
+        if want == "ok" and k in ("rv", "rc", "copy"):
+            emptied = [kd for kd, k2 in zip(E["kids"], E2["kids"]) if kd["kind"] == "text" and k2["vals"] == []]
+            if err == "IndexError" and emptied:
+                fails.append({"key": "text-empty-unwritable",
+                              "what": f"step {n}: {op} leaves text child d{emptied[0]['id']} with zero entries; writing the empty text array raises IndexError and the operation stops half-way"})
+                return fails
+            same = [kd for kd, k2 in zip(E["kids"], E2["kids"]) if kd["kind"] == "text" and kd["vals"] is not None
+                    and kd["assoc"] != "OBJECT" and len(k2["vals"]) == len(kd["vals"])]
+            if k == "copy" and err == "TypeError" and same:
+                fails.append({"key": "text-copy-undiminished-raises",
+                              "what": f"step {n}: {op}: masked copy that drops no element of text child d{same[0]['id']} raises TypeError (np.ones_like(str array) * '')"})
+                return fails
+        # whatever is left must be mutually consistent, surviving elements keep coordinates and values
         pv, pc, _ = _rows(prev)
         vr, cr, problems = _rows(snap)
         if not problems and pv is not None:
